@@ -140,25 +140,25 @@ Definition c12_sc_item_spells (tm : tmap) (it : ritem) : bool :=
   | ItConst _ => false
   end.
 
-(* what scala.rs:450 unsigned_integer_used looks at: an unsigned integer as the type itself or ONE
-   level below Option / Vec / HashMap / a generic type - not below an array or a slice, not deeper *)
-Definition c12_sc_shallow_unsigned (t : rtype) : bool :=
+(* what scala.rs unsigned_integer_used looks at since the /repo fix of C12-scala-unsigned-depth
+   (contains_unsigned_integer): an unsigned integer ANYWHERE in a type of the program - below
+   Option / Vec / HashMap / a generic type / an array / a slice, at any depth.  It scans the declared
+   type of every alias, field and variant payload, whatever its override or mapping. *)
+Fixpoint c12_sc_deep_unsigned (t : rtype) : bool :=
   match t with
+  | RSimple _ => false
+  | RGeneric _ ps => existsb c12_sc_deep_unsigned ps
+  | RVec x | RArray x _ | RSlice x | ROption x => c12_sc_deep_unsigned x
+  | RHashMap k v => c12_sc_deep_unsigned k || c12_sc_deep_unsigned v
   | RPrim p => c12_is_unsigned p
-  | ROption (RPrim p) | RVec (RPrim p) => c12_is_unsigned p
-  | RHashMap k v => match k with RPrim p => c12_is_unsigned p | _ => false end ||
-                    match v with RPrim p => c12_is_unsigned p | _ => false end
-  | RGeneric _ ps => existsb (fun x => match x with RPrim p => c12_is_unsigned p | _ => false end) ps
-  | _ => false
   end.
 Definition c12_sc_scan (pd : parsed) : bool :=
-  existsb c12_sc_shallow_unsigned (flat_map c12_item_types (c12_sc_items pd)).
+  existsb c12_sc_deep_unsigned (flat_map c12_item_types (c12_sc_items pd)).
 
-(* class C12-scala-unsigned-depth: some declaration spells an unsigned alias but no type of the
-   program shows an unsigned integer where the scan looks *)
-Definition c12_sc_known (cfg : sc_config) (pd : parsed) : option string :=
-  if existsb (c12_sc_item_spells (sc_type_mappings cfg)) (c12_sc_items pd) && negb (c12_sc_scan pd)
-  then Some "C12-scala-unsigned-depth"%string else None.
+(* The class C12-scala-unsigned-depth (a declaration spells an unsigned alias, the one-level scan of
+   the unchanged tree saw nothing) is FIXED in /repo: [c12_sc_spells_unsigned] implies the recursive
+   scan, so there is no recorded class left for Scala.  Kept as the constant the driver reports. *)
+Definition c12_sc_known (cfg : sc_config) (pd : parsed) : option string := None.
 
 (* ------------------------------------------------------------------ Go *)
 (* packages: a qualified name `pkg.X` in a type uses package pkg; the (Un)MarshalJSON methods of a
